@@ -93,17 +93,15 @@ def main():
                 fail_with = "FAIL" in o1 or "panic:" in o1
                 # (git stash is shared between worktrees of one repository: never use it here)
                 os.remove(dst)
-                saved = sh(["git", "-C", wt, "diff"])[1]
                 sh(["git", "-C", wt, "checkout", "--", "."])
                 shutil.copy(demo, dst)
                 rc2, o2 = sh(cmd, cwd=os.path.join(wt, sub))
                 pass_without = ("ok " in o2 or "PASS" in o2) and "FAIL" not in o2
                 os.remove(dst)
-                pf = os.path.join(wt, ".seed_saved.diff")
-                with open(pf, "w") as f:
-                    f.write(saved)
-                sh(["git", "-C", wt, "apply", pf])
-                os.remove(pf)
+                # demos may make -mod=mod rewrite go.mod: restore the tree, then re-apply the patch itself
+                sh(["git", "-C", wt, "checkout", "--", "."])
+                if sh(["git", "-C", wt, "apply", patch])[0] != 0:
+                    out["reapply_failed"] = True
                 out["demo_fails_with_patch"] = fail_with
                 out["demo_passes_without_patch"] = pass_without
                 if not (fail_with and pass_without):
